@@ -153,7 +153,8 @@ EXPECTED_SKELETON = {
                             'else', 'raise ValueError', 'endif', 'endif', 'else', 'if base.isscalar(s) and base.isvector(v, 3)',
                             'else', 'raise ValueError', 'endif', 'endif'],
     'Quaternion.norm': ['if len(self) == 1', 'return base.qnorm', 'else', 'return np.array', 'endif'],
-    'Quaternion.log': ['if _ == 0', 'if self.s < 0', 'raise ValueError', 'endif', 'else', 'endif', 'return Quaternion'],
+    'Quaternion.log': ['if len(self) > K', 'return Quaternion', 'endif',     # several values: log mapped over them (5d38d76)
+                       'if _ == 0', 'if self.s < 0', 'raise ValueError', 'endif', 'else', 'endif', 'return Quaternion'],
     'Quaternion.exp': ['if _ == 0', 'else', 'endif', 'if abs(self.s) < K', 'return UnitQuaternion', 'else', 'return Quaternion', 'endif'],
     'UnitQuaternion.__init__': ['if v is None', 'if super().arghandler(s, check=check)', 'else',
                                 'if isinstance(s, np.ndarray) and base.isrot(s, check=check)', 'else',
@@ -170,7 +171,7 @@ EXPECTED_SKELETON = {
 }
 # multiset of callees of the small kernels (invariant under renamed locals / reordered terms)
 EXPECTED_CALLS = {
-    'Quaternion.log': ['Quaternion', 'ValueError', 'base.norm', 'math.atan2', 'math.log', 'np.zeros', 'self.norm'],
+    'Quaternion.log': ['Quaternion', 'Quaternion', 'ValueError', 'base.norm', 'len', 'math.atan2', 'math.log', 'np.zeros', 'q.log', 'self.norm'],
     'Quaternion.exp': ['Quaternion', 'UnitQuaternion', 'abs', 'base.norm', 'math.cos', 'math.exp', 'math.sin'],
     'norm': ['getvector', 'isinstance', 'math.sqrt', 'sympy.sqrt'],
     'qnorm': ['base.getvector', 'np.linalg.norm'],
@@ -917,10 +918,16 @@ def oracle_multi(ctx):
                       ('rsmul', '__rmul__', lambda Z: kf * Z, lambda v: kf * v, 1e-9),
                       ('matrix-per-value', 'matrix', lambda Z: Z.matrix, mats, 1e-9),
                       ('exp', 'exp', lambda Z: Z.exp(), qexp_ref, 1e-6),
-                      ('log', 'log', lambda Z: Z.log(), qlog_ref, 1e-6)]
+                      ('log-per-value', 'log', lambda Z: Z.log(), qlog_ref, 1e-6)]
                 for op, attr, f, ref, tol in un:
                     vec = lambda r: r.vec if isinstance(r, Quaternion) else r
                     run(owner(A, attr), op, attr, 'N', N, lambda: f(A), lambda k: vec(f(Ak[k])), [ref(v) for v in a], [np.array(a)], tol)
+                # N unit quaternions times a 3 x N array: column i is rotated by quaternion i (the sandwich product)
+                if unit:
+                    pts = rng.normal(size=(3, N)) * log_uniform(rng, 1e-2, 1e2)
+                    rot = lambda qv, x: hamilton(hamilton(qv, np.r_[0, x]), qv * np.r_[1, -1, -1, -1])[1:]
+                    run('UnitQuaternion', 'mul-points-per-value', '__mul__', 'NxN', N, lambda: (A * pts).T,
+                        lambda k: np.asarray(Ak[k] * pts[:, k]).flatten(), [rot(a[k], pts[:, k]) for k in range(N)], [np.array(a), pts])
     ctx.sample({'kind': 'oracle', 'identity': 'multi-valued inner NxN', 'N': N, 'a': np.asarray(a).tolist(), 'b': np.asarray(b).tolist()})
 
 
